@@ -123,7 +123,11 @@ def run_impl(c, host_patch=None):
     events = [from_kd_buf(r) for r in window_events(c)]
     h = parser.handlers[c['name']]
     t = h(parser, events)
-    return 'ok ' + hs(str(t))
+    first = str(t)
+    again = str(t)
+    if first != again:                                 # a decoded trace is a value: it reads the same every time
+        return 'unstable ' + hs(first) + ' ' + hs(again)
+    return 'ok ' + hs(first)
 
 
 def impl_fn(c):
@@ -142,6 +146,14 @@ def section_decoders(rep, rng, tier, per=None, names=None, oracle_fn=None, name=
     names = supported_names() if names is None else names
     per = per or (4 if tier == 'quick' else 60)
     cases = [make_case(rng, n) for n in names for _ in range(per)]
+    inner_oracle = oracle_fn
+
+    def oracle_fn(c, got):
+        if got.startswith('unstable '):
+            a, b = (hs_text(x) for x in got.split(' ')[1:3])
+            return ('decoder:renders-differently:' + c['name'], 'str(trace) gave %r the first time and %r the second time '
+                    '(a field holds a one-shot iterator?)' % (a, b))
+        return inner_oracle(c, got) if inner_oracle else None
     core.run_section(
         rep, name, cases, line_fn=line, impl_fn=impl_fn, oracle_fn=oracle_fn,
         nontrivial_fn=lambda c, got: got.startswith('ok'),
@@ -154,6 +166,10 @@ def section_decoders(rep, rng, tier, per=None, names=None, oracle_fn=None, name=
     st = stats()
     rep.notes.append('translator: %d of %d registered handlers compiled to IR (%d with name(p0, ...) shape); hand-modelled: %s'
                      % (st['supported'], st['total'], st.get('shaped', 0), sorted(st['unsupported'])))
+
+
+def hs_text(h):
+    return '' if h == '-' else bytes.fromhex(h).decode('utf-8', 'surrogatepass')
 
 
 def text_of(ans):
